@@ -760,7 +760,8 @@ def check_C18(ctx):
                         "the abstract pool of 7 inputs x 3 length choices is replayed under three concretisations: (a) empty, single point, linear, "
                         "two-segment, bezier+catmull, perfect, small bezier x {none, 25, 500}; (b) Catmull, 14-point bezier, degree-3 b-spline, "
                         "collinear perfect curve (bezier fallback) x {none, -1 (early return), 0.001}; (c) an arc beyond 1000 sub-points "
-                        "(fallback), linear+Catmull, duplicated end, 25-point bezier x {none, 100000, 61.5}; modes rotate"]
+                        "(fallback), linear+Catmull, duplicated end, 25-point bezier x {none, 100000, 61.5}; (d) control-point lists and lengths drawn "
+                        "with the seed (every segment type); modes rotate"]
     return finish(ctx, "model_checking",
                   "TLC enumerates every sequence of {owned, borrowed, path cache (3 accessors), mutate points, mutate length, clear} "
                   "operations up to the bound over the input pool sharing one buffer set and one SliderPath, with invariants Pure and "
